@@ -52,6 +52,7 @@ case_strategy = st.fixed_dictionaries({
     "ngroups": st.integers(21, 80),
     "rerun": st.sampled_from(["none", "inproc", "inproc", "fresh"]),
     "table": st.sampled_from([None, None, "csv", "fits", "vot"]),
+    "cli": st.sampled_from([False, False, True]),
 })
 
 
@@ -266,6 +267,23 @@ def check_rows(sources, res, what, F, c, docov):
                 res.bad("island-peak", "%s has peak %r, the brightest pixel of the detected island is %r" % (
                     where, float(i.peak_flux), float(want_peak)), **tags)
                 break
+            # the island row's position is that of its peak pixel (the first one in raster order if several are equal)
+            peaks = sorted(p for p in strict if F["img"][p] == want_peak)
+            pra, pdec = (np.asarray(v) for v in F["w"].pix2sky(np.array([p[1] for p in peaks]) + 1.0,
+                                                                np.array([p[0] for p in peaks]) + 1.0))
+            dmin = float(np.min(refs.vsep(pra, pdec, float(i.ra), float(i.dec))))
+            if not dmin <= 1e-6:
+                res.bad("island-position", "%s is at (%.6f, %.6f), %.3g deg (%.2f px) from its peak pixel" % (
+                    where, i.ra, i.dec, dmin, dmin / F["s"]), negative=bool(want_peak < 0), **tags)
+                break
+            try:
+                okstr = abs(float(refs.angdiff(ra2dec(i.ra_str), i.ra))) <= 0.005 * 15 / 3600 * 1.000001 + 1e-12 and \
+                    abs(dec2dec(i.dec_str) - i.dec) <= 0.005 / 3600 * 1.000001 + 1e-12
+            except Exception:
+                okstr = False
+            if not okstr:
+                res.bad("island-sexagesimal", "%s: ra_str=%r dec_str=%r for ra=%r dec=%r" % (where, i.ra_str, i.dec_str, i.ra, i.dec), **tags)
+                break
     return comps, isles
 
 
@@ -291,6 +309,23 @@ def check_case(c):
             t = table_to_source_list(load_table(os.path.join(d, "out_comp." + c["table"])))
             if [(int(s.island), int(s.source)) for s in t] != [(int(s.island), int(s.source)) for s in comps]:
                 res.bad("table-rows", "%s: the %s table does not hold the returned components in order" % (what, c["table"]))
+        if c.get("cli") and c["mode"] == "blind" and not res.violations:
+            # the command line writes its tables from the finder object's accumulated source list: two invocations in one
+            # process must each write exactly the rows the API returns
+            from vlib.cli import run_aegean
+            argv = ["--forcerms", 1.0, "--forcebkg", 0.0, "--negative"] + ([] if docov else ["--nocov"])
+            if c["max_summits"] is not None:
+                argv += ["--maxsummits", c["max_summits"]]
+            want = sorted((int(x.island), int(x.source), float(x.peak_flux)) for x in comps)
+            for k in (1, 2):
+                rc, rows = run_aegean(path, d, "run%d" % k, argv)
+                got = sorted((int(x.island), int(x.source), float(x.peak_flux)) for x in rows)
+                if rc not in (0, None) or got != want:
+                    res.bad("cli-table-rows", "%s: invocation %d of `aegean --table` in one process wrote %d component rows, the "
+                            "API returns %d%s" % (what, k, len(got), len(want), " (duplicated (island, source) pairs)" if
+                                                  len(set(g[:2] for g in got)) < len(got) else ""), invocation=k)
+                    break
+            res.label("cli")
         if c["rerun"] != "none" and not res.violations:
             first = rows_as_json(sources)
             if c["rerun"] == "inproc":
